@@ -50,6 +50,9 @@ pub struct BusInner {
     /// per node: own transmit intervals (half duplex: nothing is heard meanwhile)
     own_tx: Vec<Vec<(i64, i64)>>,
     tx_end_ns: Vec<i64>,
+    /// per node: delay between `transmit_data` and the first bit on the wire (a PHY whose
+    /// transmission finishes later than nominal: UART FIFO, USB adapter); 0 by default
+    pub tx_latency_us: Vec<i64>,
     pub next_fault: Vec<Option<Fault>>,
     /// like `next_fault`, but waits for the node's next token pass (`DC da sa`, da != sa)
     pub next_token_fault: Vec<Option<Fault>>,
@@ -80,7 +83,7 @@ impl BusInner {
         if data.is_empty() {
             return;
         }
-        let start_ns = now_us * 1000;
+        let start_ns = (now_us + self.tx_latency_us.get(id).copied().unwrap_or(0)) * 1000;
         let end_ns = start_ns + self.bytes_ns(data.len());
         let overlapped = self
             .trace
@@ -196,6 +199,7 @@ impl Bus {
             arrived: vec![0; nodes],
             own_tx: vec![vec![]; nodes],
             tx_end_ns: vec![i64::MIN; nodes],
+            tx_latency_us: vec![0; nodes],
             next_fault: vec![None; nodes],
             next_token_fault: vec![None; nodes],
             ref_sa_seen: vec![vec![0; 128]; nodes],
